@@ -81,5 +81,6 @@ SPEC = dict(
                'run (40 000 cases per width in quick, 1.6 M in thorough; durations 1e-2..1e2 rather than 1e-38..1e38, inline a_poly_* bodies only through their exported twins); '
                'worst end residuals observed there stay >= 14x below C*eps*S, coefficient errors <= 0.45 of the 16 eps*sum|terms| bound (thorough, seeds 1..3).',
     technique='randomised input sweep with boundary-condition residual monitors, __float128 reference evaluation with a-priori error '
-              'bounds, exact-arithmetic regime with bitwise oracles, under ASan+UBSan',
+              'bounds, exact-arithmetic regime with bitwise oracles, under ASan+UBSan'
+              '; float / long double companion harness; C++ member vs C function twin execution on one object',
 )
